@@ -2,6 +2,8 @@ import Dmn.Lemmas.RefParserEscape
 import Dmn.Lemmas.RefParserRoundTrip
 import Dmn.Lemmas.RefParserSurface
 import Dmn.Lemmas.RefParserNeeded
+import Dmn.Lemmas.RefParserNeededExt
+import Dmn.Lemmas.RefParserDrops
 import Dmn.Lemmas.RefParserLayout
 
 /-!
@@ -11,10 +13,14 @@ Obligations of this file (every `theorem` below is counted by `check`):
 
 * table facts about `Dmn/Gen/Prec.lean` (regenerated from `feel.y` on every run), by `decide`:
   `table_is_reference`, `table_consistent`, `same_level_same_assoc`, `operators_declared`,
-  `level_order`, `associativities`, `right_edge_monotone`;
-* the round trip for the operator skeleton at any depth: `parse_print_full_partial`,
-  `parse_print_minimal_partial`, `parse_print_in_context` (generic in the table);
+  `level_order`, `associativities`, `right_edge_monotone`, `open_constructs_extend_right`;
+* the round trip for the expression language at any depth (operators, `if`, `for`,
+  `some`/`every`, function definitions, lists, contexts, intervals, unary tests, `in (…)`,
+  named parameters): `parse_print_full_partial`, `parse_print_minimal_partial`,
+  `parse_print_in_context` (generic in the table);
 * `paren_needed_partial`: a needed pair around an operand of the root cannot be dropped;
+  `paren_needed_root_in_drops`: that rendering is one of those the correspondence enumerates
+  (`drops`: one pair left out at any depth);
 * the same round trip through the lexer's `between` flag and the `( a . b . c` quirk of the
   tables: `parse_print_surface_partial` (+ two counterexamples, findings F19 and F22);
 * layout: `layout_gap_skipped`, `layout_irrelevant` (any number of comments in a gap);
@@ -94,18 +100,32 @@ theorem right_edge_monotone :
     betweenLvl ≤ hiMin := by
   decide
 
+/-- `if … else`, `for … return`, `some`/`every … satisfies` and function bodies extend as far
+right as they can: the minimum under which their last operand is read (one above the line of
+`ELSE` / `RETURN` / `SATISFIES` / `EXTERNAL`, feel.y:72-73) is not above any operator, `between`
+included; and `else` binds at least as tightly as the three others. -/
+theorem open_constructs_extend_right :
+    allBinOps.all (fun o => decide (iteMin ≤ lvl o) && decide (forMin ≤ lvl o) && decide (someMin ≤ lvl o) &&
+      decide (everyMin ≤ lvl o) && decide (fnMin ≤ lvl o)) = true ∧
+    iteMin ≤ betweenLvl ∧ forMin ≤ iteMin ∧ someMin ≤ iteMin ∧ everyMin ≤ iteMin ∧ fnMin ≤ iteMin ∧
+    0 < forMin ∧ 0 < someMin ∧ 0 < everyMin ∧ 0 < fnMin := by
+  decide
+
 /-! ## The round trip
 
-`Tree` is the operator skeleton of the expression language: all binary operators (or, and,
-the six comparisons, in, + - * / **), unary minus, `between … and …`, `instance of` a
-qualified name, path, filter, invocation with positional arguments, leaves; parentheses leave
-no node.  Trees are unbounded in depth and width.
+`Tree` is the expression language of `feel.y` as `parser.rs` builds it: all binary operators
+(or, and, the six comparisons, in, + - * / **), unary minus, `between … and …`, `instance of`
+a qualified name, path, filter, invocation with positional or named arguments, `e in (a, b, …)`,
+`if`, `for` (list and `a..b` domains, any number of iteration contexts), `some`/`every`,
+function definitions (untyped parameters), list and context literals (name and string keys),
+interval literals in all nine spellings, the unary tests `< <= > >=`, leaves; parentheses
+leave no node.  Trees are unbounded in depth and width.
 
-FULL STATEMENT (not proved; the constructs below are covered by the correspondence only):
-the same two equations for the trees of the whole expression language, i.e. with
-`if`/`for`/`some`/`every`/`function` definitions, lists, contexts, ranges and unary tests,
-named parameters, `e in (a, b, …)` and `instance of` a built-in or generic type.
-Hence the suffix `_partial`. -/
+FULL STATEMENT (not proved; what remains outside `Tree` is covered by the correspondence only,
+family `extended`): the same two equations with typed formal parameters, `external` function
+bodies, `instance of` a built-in or generic type (`list<…>`, `range<…>`, `context<…>`,
+`function<…> -> …`), date/time literal invocations, and the start symbols of unary tests
+(`-`, `not(…)`, comma lists).  Hence the suffix `_partial`. -/
 
 /-- Parsing the fully parenthesised rendering of a tree gives back the tree. -/
 theorem parse_print_full_partial (t : Tree) : parse (print .full t) = some t := by
@@ -133,15 +153,29 @@ example : startsOk .minimal 10 (.bin .mul (.atom (.name 0)) (.atom (.name 1))) =
   · show absorbs .minimal _ Tok.plus = false
     decide
 
+-- `a * if b then c else d + 1`: the `else` branch takes the `+ 1`
+example : startsOk .minimal (rhsMin .mul) (.ite (.atom (.name 1)) (.atom (.name 2)) (.atom (.name 3))) = true ∧
+    absorbs .minimal (.ite (.atom (.name 1)) (.atom (.name 2)) (.atom (.name 3))) Tok.plus = true := by
+  decide
+
 /-! ## A needed pair of parentheses
 
 `printWithout t i` is the minimal rendering of `t` with the `i`-th operand of the root
-written without parentheses.  When `needsParens` demands a pair there, the token list no
-longer parses to `t` (it parses to another tree, or not at all).  The operands and the
-other parts of `t` are arbitrary trees; the pair that is dropped is one around a direct
-operand of the root.
+written without parentheses (`operand`: the first operand of an infix/postfix construct, both
+operands of a binary operator, the last operand of `between`, `if`, `for`, `some`/`every` and
+of a function definition; operands between delimiters never need a pair).  When
+`needsParens` demands a pair there, the token list no longer parses to `t` (it parses to
+another tree, or not at all).  The operands and the other parts of `t` are arbitrary trees;
+the pair that is dropped is one around a direct operand of the root.
 
-FULL STATEMENT (not proved): the same for a needed pair at any depth of the tree. -/
+FULL STATEMENT (not proved):
+theorem paren_needed (t : Tree) (ts : List Tok) (h : ts ∈ drops .minimal t) : parse ts ≠ some t
+— the same for a needed pair at any depth (`drops .minimal t`: every minimal rendering with one
+pair left out anywhere).  Missing: the step from an operand whose rendering lacks a pair deeper
+inside to its parent (the sub-parse of that operand returns some other tree `x`; that the
+parent then differs needs, per construct and operand position, the defining equation of the
+parser read backwards).  `paren_needed_root_in_drops` shows the root case is an instance; every
+member of `drops .minimal t` is checked by the correspondence (family `paren-removed`). -/
 
 theorem paren_needed_partial (t : Tree) (i : Nat) (pos : Pos) (c : Tree)
     (h : operand t i = some (pos, c)) (hn : needsParens pos c = true) :
@@ -174,7 +208,7 @@ theorem paren_needed_partial (t : Tree) (i : Nat) (pos : Pos) (c : Tree)
       obtain ⟨rfl, rfl⟩ := h
       rw [needs_betweenE] at hn
       simpa [printWithout, par_false] using
-        first_absorbed .minimal (.between e lo hi) e .between _ rfl hn (by simp)
+        first_absorbed .minimal (.between e lo hi) e .between _ rfl hn (by simp) ⟨_, rfl⟩
     | 1, h =>
       simp only [operand, Option.some.injEq, Prod.mk.injEq] at h
       obtain ⟨rfl, rfl⟩ := h
@@ -191,7 +225,7 @@ theorem paren_needed_partial (t : Tree) (i : Nat) (pos : Pos) (c : Tree)
       obtain ⟨rfl, rfl⟩ := h
       rw [needs_instE] at hn
       simpa [printWithout, par_false] using
-        first_absorbed .minimal (.instOf e q qs) e .instance _ rfl hn (by simp)
+        first_absorbed .minimal (.instOf e q qs) e .instance _ rfl hn (by simp) ⟨_, rfl⟩
     | n + 1, h => simp [operand] at h
   | path e n' =>
     match i, h with
@@ -200,7 +234,7 @@ theorem paren_needed_partial (t : Tree) (i : Nat) (pos : Pos) (c : Tree)
       obtain ⟨rfl, rfl⟩ := h
       rw [needs_pathE] at hn
       simpa [printWithout, par_false] using
-        first_absorbed .minimal (.path e n') e .dot [.name n'] rfl hn (fun _ => ⟨n', [], rfl⟩)
+        first_absorbed .minimal (.path e n') e .dot [.name n'] rfl hn (fun _ => ⟨n', [], rfl⟩) ⟨_, rfl⟩
     | n + 1, h => simp [operand] at h
   | filter e i' =>
     match i, h with
@@ -209,7 +243,7 @@ theorem paren_needed_partial (t : Tree) (i : Nat) (pos : Pos) (c : Tree)
       obtain ⟨rfl, rfl⟩ := h
       rw [needs_filterE] at hn
       simpa [printWithout, par_false] using
-        first_absorbed .minimal (.filter e i') e .lbrack _ rfl hn (by simp)
+        first_absorbed .minimal (.filter e i') e .lbrack _ rfl hn (by simp) ⟨_, rfl⟩
     | 1, h =>
       simp only [operand, Option.some.injEq, Prod.mk.injEq] at h
       obtain ⟨rfl, rfl⟩ := h
@@ -222,8 +256,76 @@ theorem paren_needed_partial (t : Tree) (i : Nat) (pos : Pos) (c : Tree)
       obtain ⟨rfl, rfl⟩ := h
       rw [needs_callF] at hn
       simpa [printWithout, par_false] using
-        first_absorbed .minimal (.call f as) f .lparen _ rfl hn (by simp)
+        first_absorbed .minimal (.call f as) f .lparen _ rfl hn (by simp) ⟨_, rfl⟩
     | n + 1, h => simp [operand] at h
+  | callNamed f n' v bs =>
+    match i, h with
+    | 0, h =>
+      simp only [operand, Option.some.injEq, Prod.mk.injEq] at h
+      obtain ⟨rfl, rfl⟩ := h
+      rw [needs_callF] at hn
+      simpa [printWithout, par_false] using
+        first_absorbed .minimal (.callNamed f n' v bs) f .lparen _ rfl hn (by simp) ⟨_, rfl⟩
+    | n + 1, h => simp [operand] at h
+  | inList e a b more =>
+    match i, h with
+    | 0, h =>
+      simp only [operand, Option.some.injEq, Prod.mk.injEq] at h
+      obtain ⟨rfl, rfl⟩ := h
+      simpa [printWithout, par_false] using inE_needed .minimal e a b more _ hn
+    | n + 1, h => simp [operand] at h
+  | ite c' a b =>
+    match i, h with
+    | 0, h =>
+      simp only [operand, Option.some.injEq, Prod.mk.injEq] at h
+      obtain ⟨rfl, rfl⟩ := h
+      simpa [printWithout, par_false] using ite_needed .minimal c' a b hn
+    | n + 1, h => simp [operand] at h
+  | forS v d its body =>
+    match i, h with
+    | 0, h =>
+      simp only [operand, Option.some.injEq, Prod.mk.injEq] at h
+      obtain ⟨rfl, rfl⟩ := h
+      simpa [printWithout, par_false] using forS_needed .minimal v d its body hn
+    | n + 1, h => simp [operand] at h
+  | forR v lo hi its body =>
+    match i, h with
+    | 0, h =>
+      simp only [operand, Option.some.injEq, Prod.mk.injEq] at h
+      obtain ⟨rfl, rfl⟩ := h
+      simpa [printWithout, par_false] using forR_needed .minimal v lo hi its body hn
+    | n + 1, h => simp [operand] at h
+  | quant ev v d qs body =>
+    match i, h with
+    | 0, h =>
+      simp only [operand, Option.some.injEq, Prod.mk.injEq] at h
+      obtain ⟨rfl, rfl⟩ := h
+      simpa [printWithout, par_false] using quant_needed .minimal ev v d qs body hn
+    | n + 1, h => simp [operand] at h
+  | fn ps body =>
+    match i, h with
+    | 0, h =>
+      simp only [operand, Option.some.injEq, Prod.mk.injEq] at h
+      obtain ⟨rfl, rfl⟩ := h
+      simpa [printWithout, par_false] using fn_needed .minimal ps body hn
+    | n + 1, h => simp [operand] at h
+  | list items => simp [operand] at h
+  | ctx es => simp [operand] at h
+  | range b1 lo hi b2 => simp [operand] at h
+  | utest c' e => simp [operand] at h
+
+/-- The rendering `paren_needed_partial` speaks about is among those `drops` enumerates (the
+correspondence runs every member of `drops .minimal t` through the real parser). -/
+theorem paren_needed_root_in_drops (t : Tree) (i : Nat) (pos : Pos) (c : Tree)
+    (h : operand t i = some (pos, c)) (hn : needsParens pos c = true) :
+    printWithout t i ∈ drops .minimal t :=
+  drops_contains_root t i pos c h hn
+
+/-- `(if a then b else c) + d`: the pair is needed (`if a then b else c + d` is another tree). -/
+example : operand (.bin .add (.ite (.atom (.name 0)) (.atom (.name 1)) (.atom (.name 2))) (.atom (.name 3))) 0 =
+      some (.binL .add, .ite (.atom (.name 0)) (.atom (.name 1)) (.atom (.name 2))) ∧
+    needsParens (.binL .add) (.ite (.atom (.name 0)) (.atom (.name 1)) (.atom (.name 2))) = true :=
+  ⟨rfl, by decide⟩
 
 /-- `(a + b) * c`: the pair is needed, and `a + b * c` is another tree. -/
 example : operand (.bin .mul (.bin .add (.atom (.name 0)) (.atom (.name 1))) (.atom (.name 2))) 0 =
